@@ -161,8 +161,10 @@ func c05Oracle(prog *Program) func(x *OracleCtx) *Violation {
 
 // c05OracleS is c05Oracle for an explicit list of scripts (inline map scripts
 // have labels read off the output).
-func c05OracleS(coded bool, scripts func() []*Script) func(x *OracleCtx) *Violation {
+func c05OracleS(_ bool, scripts func() []*Script) func(x *OracleCtx) *Violation {
 	return func(x *OracleCtx) *Violation {
+		// read at oracle time: a case may be re-run with SMT-string names
+		coded := x.Case.Prog.Atoms.Coded
 		ss := scripts()
 		var names []interp.Value
 		for _, s := range ss {
